@@ -12,7 +12,7 @@ DESCRIPTION = {
              "(b) WebSocket subprotocols, exhaustive: every ordered subset of "
              "{json,msgpack,cbor,ubjson} on the client side x every subset on the server side (65x65) through the real WebSocket handshake between library client and server.  "
              "(c) Traffic: library client <-> library server (RawSocket and WebSocket) with recording sessions, Hypothesis message sequences whose serialized length is steered to "
-             "limit-1/limit/limit+1 of the negotiated maximum (2^9..2^24), all serializers, adversarial segmentation; length prefixes above the locally announced maximum "
+             "limit-1/limit/limit+1 of the negotiated maximum (2^9..2^24), all serializers, adversarial segmentation (incl. several reads per event-loop turn); length prefixes above the locally announced maximum "
              "delivered header-only.  (d) Corruption injected at every position of a valid stream: flipped WebSocket frame type, truncated/garbage payload, unknown message type, "
              "out-of-phase message (session raising ProtocolError), session callbacks raising in onOpen/onMessage/onClose.  Oracle: a session's onOpen happens iff the reference "
              "handshake rules accept (magic 0x7F and a supported serializer code; first wamp.2.* subprotocol in the client's order that the server supports), both ends then hold "
@@ -408,7 +408,7 @@ def traffic(col, seed, n):
         "kind": st.sampled_from(["rs", "ws"]), "ser": st.sampled_from(SERS), "limit": st.sampled_from([512, 1024, 4096, 65536, 2 ** 17]),
         "deltas": st.lists(st.sampled_from([-1, 0, 1, -100, 37]), min_size=1, max_size=4), "dir": st.sampled_from(["c2s", "s2c"]),
         "msgs": st.lists(anymsg, max_size=4), "schedule": st.lists(st.tuples(st.integers(0, 1), st.one_of(st.none(), st.integers(1, 300))), max_size=12),
-        "header_only_excess": st.sampled_from([1, 100, 2 ** 20])})
+        "header_only_excess": st.sampled_from([1, 100, 2 ** 20]), "burst": st.sampled_from([0, 0, 3, 6])})   # burst: that many reads per event-loop turn
 
     def body(c):
         check_traffic(c)
@@ -470,8 +470,10 @@ def check_traffic(c):
                 if raised is not None:
                     raise Violation("C13|traffic|within-limit-send-refused|" + exc_key(raised), "size %d limit %r: %r" % (size, eff_limit, raised), c)
                 sent.append(m)
-            if k % 2 == 0:
+            if k % 2 == 0 and not c.get("burst"):
                 w.pipe.run(c["schedule"])
+        if c.get("burst"):
+            w.pipe.run_bytewise(53, burst=c["burst"])
         w.pipe.run(c["schedule"])
         w.pipe.run()
         esc = list(w.se.escaped) + list(w.ce.escaped) + list(w.d.loop_errors)
